@@ -125,12 +125,18 @@ func VerifH_C12_changes() {
 		if symParam("refilter", 1) == 1 && symChoice("refilter", 2) == 1 {
 			passes = 2
 		}
+		// ... also when the pass before was given up after its first row
+		// (LIMIT 1, EXISTS)
+		abandon := passes == 2 && symChoice("abandon-first-pass", 2) == 1
 		for pass := 0; pass < passes && !failed; pass++ {
 			gotK, gotB = nil, nil
 			if err := cur.Filter(0, ""); err != nil {
 				failed = true
 			}
 			for n := 0; !failed && !cur.Eof(); n++ {
+				if abandon && pass == 0 && n == 1 {
+					break
+				}
 				symAssert(n <= 4, "changes-cursor-terminates")
 				c0 := symSQLContext()
 				err := cur.Column(c0, 0)
@@ -293,7 +299,24 @@ func VerifH_C12_to_current() {
 			A = now
 			ct = &ChangesTable{table: vt.common, module: c.changes, fromVer: names}
 		}
+		// optionally one storage fault while this query runs: it fails or it
+		// answers completely
+		faulty := symParam("faults", 0) == 1 && symChoice("faulty", 2) == 1
+		if faulty {
+			f := symInt("fault")
+			symAssume(f >= 0)
+			symAssume(f < 8)
+			bkt.faultOn, bkt.faultAt = true, bkt.reqs+f
+		}
 		gotK, gotB, ok := vChangesScan(ct)
+		bkt.faultOn = false
+		if faulty && bkt.faultsInjected > 0 {
+			if ok {
+				vCheckChanges(A, now, gotK, gotB)
+			}
+			symReach("end")
+			return
+		}
 		symAssert(ok, "changes-query-succeeds")
 		vCheckChanges(A, now, gotK, gotB)
 		symReach("queried")
